@@ -2,9 +2,11 @@ package server
 
 import (
 	"context"
+	"errors"
 	"fmt"
 	"io"
 	"log/slog"
+	"math"
 	"net/http"
 	"strconv"
 	"strings"
@@ -141,6 +143,19 @@ func generateContentRangeValue(br storage.ByteRange, objectSize int64) string {
 
 var errInvalidByteRange error = fmt.Errorf("invalid byte range")
 
+// parseBytePos parses a first-byte-pos, last-byte-pos or suffix-length.
+// No object can hold math.MaxInt64 bytes, so every position at or beyond
+// math.MaxInt64-1 just means "past the end": such values (including digit
+// strings that do not fit an int64) are clamped to math.MaxInt64-1. This keeps
+// the inclusive-to-exclusive conversion (end+1) from overflowing.
+func parseBytePos(value string) (int64, error) {
+	pos, err := strconv.ParseInt(value, 10, 64)
+	if err != nil && !(errors.Is(err, strconv.ErrRange) && pos == math.MaxInt64) {
+		return 0, err
+	}
+	return min(pos, math.MaxInt64-1), nil
+}
+
 // parseRangeHeader parses HTTP Range header and returns storage.ByteRange array.
 // It converts HTTP ranges (inclusive end) to storage ranges (exclusive end) automatically.
 // Suffix ranges (bytes=-N) are passed through as-is to be resolved by the storage layer.
@@ -167,14 +182,14 @@ func parseRangeHeader(rangeHeader string) ([]storage.ByteRange, error) {
 		var end *int64
 
 		if byteSplit[0] != "" {
-			startByte, err := strconv.ParseInt(byteSplit[0], 10, 64)
+			startByte, err := parseBytePos(byteSplit[0])
 			if err != nil {
 				return nil, errInvalidByteRange
 			}
 			start = &startByte
 		}
 		if byteSplit[1] != "" {
-			endByte, err := strconv.ParseInt(byteSplit[1], 10, 64)
+			endByte, err := parseBytePos(byteSplit[1])
 			if err != nil {
 				return nil, errInvalidByteRange
 			}
